@@ -21,6 +21,7 @@ Decided clauses:
         it) before the first draw - a `while (!valid(r)) draw(r)` loop returns the caller's stale bytes when they happen to be valid.
   R18.6 every dispatch in randombytes.c fetches the function pointer from the struct `implementation` points to at the time of the
         call (no cached copy of a slot can survive randombytes_set_implementation()).
+  R18.7 the pointer to the installed source is process-global (a thread-local one makes the installation per thread).
 NOT decided: that min == 2^32 mod n (arithmetic); bit-exact replay.
 """
 import re
@@ -134,6 +135,13 @@ def run(ctx, chk):
                        "buffer content" % (f.sname, mine, g.sname, theirs), key="R18.1-deleg %s" % f.sname)
             break
     chk.floor("R18.1-deleg", "delegating generator functions", nd, 3)
+    # ---- R18.7 the installed source is one per process ------------------------------------------------------------------------
+    gimpl = prog.modules["randombytes/randombytes.c"].globals.get("implementation")
+    if gimpl is None:
+        raise AnalysisBroken("R18.7: the implementation pointer of randombytes.c was not found")
+    chk.ob("R18.7", "randombytes/randombytes.c::implementation", "the pointer to the installed source is a process-global object (not thread-local)",
+           not gimpl.get("tls"), detail="" if not gimpl.get("tls") else "thread-local: randombytes_set_implementation() installs the source for "
+           "the calling thread only, every other thread silently falls back to the default generator", key="R18.7 implementation tls")
     # ---- R18.6 every dispatch reads the installed source at call time ---------------------------------------------------------
     n6 = 0
     for f in sorted(prog.functions(), key=lambda f: f.name):
